@@ -144,7 +144,7 @@ def run_case(i):
             out["bd"] = True
         tracegen.write_trace(wd, case["desc"], case["hist"], require=histgen.require_of(case["enabled"]),
                              extra_meta=extra or None, cpus_on=["first", "all", "shuffled", "split"][i % 4],
-                             cpu_rng=chk.rng(i, "cpus"))
+                             cpu_rng=chk.rng(i, "cpus"), rank_on="one" if (i // 4) % 2 else "all")
         r = emu.emu(build, wd, args, timeout=60)
         if r.timeout:
             out["inconclusive"] = "timeout"; return out
